@@ -286,7 +286,8 @@ def resBodyDetermine (c : Conn) : R :=
     if t.methodNumber == M_CONNECT then
       -- (finding S36, repaired: a stopped request direction is left alone, like one in error)
       let c := if c.inn.status != STREAM_ERROR && c.inn.status != STREAM_STOP then { c with inn := { c.inn with status := STREAM_DATA } } else c
-      if t.resStatusNumber == 407 then c else { c with outDataOtherAtTxEnd := true }
+      -- (finding S38, repaired: a 407 now also stops at the end of the transaction, like every other refused CONNECT)
+      { c with outDataOtherAtTxEnd := true }
     else c
   let cl := getHeaderC t.resHeaders (b!"content-length")
   let te := getHeaderC t.resHeaders (b!"transfer-encoding")
